@@ -23,6 +23,7 @@ class StepLoop(asyncio.SelectorEventLoop):
         super().__init__()
         self._vtime = 0.0
         self.handles_run = 0
+        self._xjobs = []          # futures of run_in_executor() calls that have not delivered their result yet
 
     # -- virtual clock ---------------------------------------------------------------------
     def time(self):
@@ -38,7 +39,25 @@ class StepLoop(asyncio.SelectorEventLoop):
         events._set_running_loop(None)
         self._thread_id = None
 
+    def run_in_executor(self, executor, func, *args):
+        fut = super().run_in_executor(executor, func, *args)
+        self._xjobs.append(fut)
+        return fut
+
+    def _settle_threads(self, bound=10.0):
+        """Code under test may hand work to a thread (run_in_executor): the loop is not idle while such a job is in flight -
+        wait (bounded, real time) until its completion callback has arrived in the ready queue."""
+        import time as _t
+        end = _t.time() + bound
+        while True:
+            self._xjobs = [f for f in self._xjobs if not f.done()]
+            if not self._xjobs or any(not h._cancelled for h in self._ready) or _t.time() > end:
+                return
+            _t.sleep(0.0005)
+
     def nready(self):
+        if self._xjobs:
+            self._settle_threads()
         return sum(1 for h in self._ready if not h._cancelled)
 
     def idle(self):
@@ -46,6 +65,8 @@ class StepLoop(asyncio.SelectorEventLoop):
 
     def step(self):
         """Run exactly one (non-cancelled) ready handle; return it, or None when there is none."""
+        if self._xjobs:
+            self._settle_threads()
         while self._ready:
             h = self._ready.popleft()
             if h._cancelled:
